@@ -505,6 +505,11 @@ func Yield() {
 	}
 	t := s.cur
 	t.state = stRunnable
+	if len(s.timers) > 0 && len(s.runnableOthers(t)) == 0 {
+		// a polling task offers the baton and nobody can take it: the only thing
+		// that can happen next is that time passes
+		s.fireTimer(false)
+	}
 	s.scheduleNext(t)
 }
 
